@@ -42,7 +42,7 @@ def cell(value, fmt="%.18e"):
     """token for a value written with printf-format fmt"""
     k = _new_id()
     _CELLS[k] = (value, fmt)
-    return "@C%d@" % k
+    return "@C%07d@" % k      # fixed width, like the "%.18e" cells of evo's writers (file sizes do not depend on the values)
 
 
 def sig_digits(fmt):
